@@ -75,7 +75,12 @@ namespace awkward {
 
   int64_t
   RecordBuilder::length() const {
-    return length_;
+    return length_ == -1 ? 0 : length_;
+  }
+
+  bool
+  RecordBuilder::fresh() const {
+    return length_ == -1;
   }
 
   void
